@@ -35,15 +35,26 @@ type wInterp struct {
 	env    []map[string]wv
 	result []wv
 	fail   string // why the interpretation could not be carried out
-	steps  int
-	hook   func(name string, c *ast.CallExpr) (wv, bool)
+	// zeroInts: make([]intType, n) yields zeros instead of the "UNSET" marker (interpreters of data structures)
+	zeroInts bool
+	objects  int
+	steps    int
+	hook     func(name string, c *ast.CallExpr) (wv, bool)
 	// for type switches: the dynamic type of the switched value and the value bound in the chosen clause
 	dynType  types.Type
 	dynValue wv
 }
 
 func (w *wInterp) push() { w.env = append(w.env, map[string]wv{}) }
-func (w *wInterp) pop()  { w.env = w.env[:len(w.env)-1] }
+
+// envSetGlobal binds a name in the outermost scope (fields of objects outlive the block that made them).
+func (w *wInterp) envSetGlobal(n string, v wv) {
+	if len(w.env) == 0 {
+		w.push()
+	}
+	w.env[0][n] = v
+}
+func (w *wInterp) pop() { w.env = w.env[:len(w.env)-1] }
 func (w *wInterp) lookup(n string) (wv, bool) {
 	for i := len(w.env) - 1; i >= 0; i-- {
 		if v, ok := w.env[i][n]; ok {
@@ -118,6 +129,8 @@ func (w *wInterp) expr(e ast.Expr) wv {
 	case *ast.UnaryExpr:
 		x := w.expr(t.X)
 		switch t.Op {
+		case token.AND:
+			return x // the address of an object is its handle
 		case token.NOT:
 			if b, ok := x.(bool); ok {
 				return !b
@@ -208,11 +221,14 @@ func (w *wInterp) expr(e ast.Expr) wv {
 			}
 			return a % b
 		case token.SHL:
-			if b >= 0 && b < 62 {
-				return a << uint(b)
+			if b >= 0 && b < 64 {
+				return int64(uint64(a) << uint(b)) // the bit pattern; word-sized operands wrap as in Go
 			}
 		case token.SHR:
 			if b >= 0 && b < 64 {
+				if a < 0 {
+					return int64(uint64(a) >> uint(b))
+				}
 				return a >> uint(b)
 			}
 		case token.AND:
@@ -269,6 +285,23 @@ func (w *wInterp) expr(e ast.Expr) wv {
 	case *ast.CallExpr:
 		return w.call(t)
 	case *ast.CompositeLit:
+		// a struct literal with keys: an object handle whose fields are bound as "handle.field"
+		if _, isArr := t.Type.(*ast.ArrayType); !isArr {
+			if tv, ok := w.pkg.TypesInfo.Types[e]; ok {
+				if _, isStruct := tv.Type.Underlying().(*types.Struct); isStruct {
+					w.objects++
+					h := fmt.Sprintf("obj#%d", w.objects)
+					for _, el := range t.Elts {
+						kv, isKV := el.(*ast.KeyValueExpr)
+						if !isKV {
+							return w.bad("positional struct literal %s", cx(e))
+						}
+						w.envSetGlobal(h+"."+cx(kv.Key), w.expr(kv.Value))
+					}
+					return h
+				}
+			}
+		}
 		// a slice literal of elements: []*Wire{a, b}
 		if _, isArr := t.Type.(*ast.ArrayType); isArr {
 			out := make([]wv, 0, len(t.Elts))
@@ -325,7 +358,7 @@ func (w *wInterp) call(c *ast.CallExpr) wv {
 		return w.bad("len of non-slice")
 	case "make":
 		n, ok := w.expr(c.Args[1]).(int64)
-		if !ok || n < 0 || n > 64 {
+		if !ok || n < 0 || n > 4096 {
 			return w.bad("make with a non-constant size")
 		}
 		s := make([]wv, n)
@@ -335,11 +368,24 @@ func (w *wInterp) call(c *ast.CallExpr) wv {
 				_, nested = st.Elem().Underlying().(*types.Slice)
 			}
 		}
+		var zero wv = "UNSET"
+		if tv, ok := w.pkg.TypesInfo.Types[c.Args[0]]; ok && tv.IsType() {
+			if st, ok := tv.Type.Underlying().(*types.Slice); ok {
+				if bt, ok := st.Elem().Underlying().(*types.Basic); ok {
+					switch {
+					case bt.Info()&types.IsBoolean != 0:
+						zero = false
+					case bt.Info()&types.IsInteger != 0 && w.zeroInts:
+						zero = int64(0)
+					}
+				}
+			}
+		}
 		for i := range s {
 			if nested {
 				s[i] = []wv{}
 			} else {
-				s[i] = "UNSET"
+				s[i] = zero
 			}
 		}
 		return s
@@ -522,6 +568,27 @@ func (w *wInterp) stmt(s ast.Stmt) wOutcome {
 				v = tu[0]
 			}
 			switch t.Tok {
+			case token.OR_ASSIGN, token.AND_ASSIGN, token.XOR_ASSIGN, token.SHL_ASSIGN, token.SHR_ASSIGN, token.AND_NOT_ASSIGN:
+				a, ok1 := w.expr(l).(int64)
+				b, ok2 := v.(int64)
+				if !ok1 || !ok2 {
+					w.bad("compound assignment on non-integers")
+					return wOutcome{}
+				}
+				switch t.Tok {
+				case token.OR_ASSIGN:
+					v = a | b
+				case token.AND_ASSIGN:
+					v = a & b
+				case token.XOR_ASSIGN:
+					v = a ^ b
+				case token.AND_NOT_ASSIGN:
+					v = a &^ b
+				case token.SHL_ASSIGN:
+					v = int64(uint64(a) << uint(b&63))
+				default:
+					v = int64(uint64(a) >> uint(b&63))
+				}
 			case token.ADD_ASSIGN, token.SUB_ASSIGN, token.MUL_ASSIGN, token.QUO_ASSIGN:
 				a, ok1 := w.expr(l).(int64)
 				b, ok2 := v.(int64)
